@@ -210,8 +210,8 @@ def run_unit(unit, drv, res, seed, tier):
             for b in B2:
                 vs = [("a", DUR(a)), ("b", DUR(b))]
                 s, d = a + b, a - b
-                items.append((exec_case(0, "a + b", vs), ('ok', DUR(s)) if I64_MIN <= s <= I64_MAX else ('err', 'overflow'), 'duration + duration'))
-                items.append((exec_case(0, "a - b", vs), ('ok', DUR(d)) if I64_MIN <= d <= I64_MAX else ('err', 'overflow'), 'duration - duration'))
+                items.append((exec_case(0, "a + b", vs), ('ok', DUR(s)) if I64_MIN <= s <= I64_MAX else ('err', '*'), 'duration + duration'))
+                items.append((exec_case(0, "a - b", vs), ('ok', DUR(d)) if I64_MIN <= d <= I64_MAX else ('err', '*'), 'duration - duration'))
                 for rel, f in (('<', a < b), ('<=', a <= b), ('>', a > b), ('>=', a >= b), ('==', a == b), ('!=', a != b)):
                     items.append((exec_case(0, "a %s b" % rel, vs), ('ok', B(f)), 'duration comparison', abs(a) > 1 or abs(b) > 1))
         run_items(res, drv, items, 'pairs')
@@ -288,11 +288,11 @@ def run_unit(unit, drv, res, seed, tier):
             a, b = rng.choice(vals), rng.choice(vals)
             vs = [("a", DUR(a)), ("b", DUR(b))]
             s, d = a + b, a - b
-            items.append((exec_case(0, "a + b", vs), ('ok', DUR(s)) if I64_MIN <= s <= I64_MAX else ('err', 'overflow'), 'duration + duration'))
-            items.append((exec_case(0, "a - b", vs), ('ok', DUR(d)) if I64_MIN <= d <= I64_MAX else ('err', 'overflow'), 'duration - duration'))
+            items.append((exec_case(0, "a + b", vs), ('ok', DUR(s)) if I64_MIN <= s <= I64_MAX else ('err', '*'), 'duration + duration'))
+            items.append((exec_case(0, "a - b", vs), ('ok', DUR(d)) if I64_MIN <= d <= I64_MAX else ('err', '*'), 'duration - duration'))
             items.append((exec_case(0, "a < b", vs), ('ok', B(a < b)), 'duration comparison'))
             items.append((exec_case(0, "duration(string(a)) + duration(string(b)) == a + b", vs),
-                          ('ok', B(True)) if I64_MIN <= s <= I64_MAX else ('err', 'overflow'), 'duration + duration'))
+                          ('ok', B(True)) if I64_MIN <= s <= I64_MAX else ('err', '*'), 'duration + duration'))
         run_items(res, drv, items, 'random')
 
 
